@@ -910,7 +910,7 @@ def emit_global(em, name):
     cn = 'g_' + cname(name)
     if g['init'] is None and name.startswith('_ZTI'):
         if name in RT_TYPEINFOS: return 'extern struct verif_ti %s;' % cn, '/* %s provided by rt */' % cn
-        return 'extern struct verif_ti %s;' % cn, 'struct verif_ti %s = {0, "%s"};' % (cn, name[4:])
+        return 'extern struct verif_ti %s;' % cn, 'struct verif_ti %s = {0, "*%s"};' % (cn, name[4:])
     if g['init'] is None:
         # external: opaque object of its size if known, else 8 bytes
         try: sz = max(L.size_align(t)[0], 1)
@@ -958,6 +958,7 @@ def main():
     ap.add_argument('ll'); ap.add_argument('out'); ap.add_argument('--root', action='append', default=[]); ap.add_argument('--stub', action='append', default=[])
     ap.add_argument('--stubre', action='append', default=[])
     ap.add_argument('--keep-virtual', action='append', default=[])
+    ap.add_argument('--cut', action='append', default=[], help='demangled-name regex: like --stubre, but an empty body is generated (value-irrelevant constructors/destructors cut as pairs)')
     a = ap.parse_args()
     mod = parse_module(open(a.ll).read())
     names = list(mod.funcs) + list(mod.decls)
@@ -966,6 +967,10 @@ def main():
     stubs = set(a.stub)
     for r in a.stubre:
         rr = re.compile(r); stubs |= {n for n in names if rr.search(n2d[n])}
+    cuts = set()
+    for r in a.cut:
+        rr = re.compile(r); cuts |= {n for n in names if rr.search(n2d[n])}
+    stubs |= cuts
     em = Emitter(mod, stubs)
     em.keep_virtual = [re.compile(r) for r in a.keep_virtual]
     roots = []
@@ -991,7 +996,7 @@ def main():
             if g in mod.globals:
                 try: gdone[g] = emit_global(em, g)
                 except Exception as e: gdone[g] = ('extern char g_%s[8]; /* FAIL %s */' % (cname(g), str(e)[:80]), 'char g_%s[8];' % cname(g))
-            elif g.startswith('_ZTI'): gdone[g] = ('extern struct verif_ti g_%s;' % cname(g), ('/* rt */' if g in RT_TYPEINFOS else 'struct verif_ti g_%s = {0, "%s"};' % (cname(g), g[4:])))
+            elif g.startswith('_ZTI'): gdone[g] = ('extern struct verif_ti g_%s;' % cname(g), ('/* rt */' if g in RT_TYPEINFOS else 'struct verif_ti g_%s = {0, "*%s"};' % (cname(g), g[4:])))
             else: gdone[g] = ('extern char g_%s[8];' % cname(g), '/* undefined global %s */ char g_%s[8];' % (g, cname(g)))
         # new funcs may be referenced from initializers
         for fn in [f for f in em.need_funcs if f not in done and f not in fails]:
@@ -1016,6 +1021,12 @@ def main():
             if info is None: o.write('/* unknown external %s */\n' % fn); continue
             ps = ', '.join(em.cty(t) for t, a_, n in info['params']) or 'void'
             if info['va']: ps += ', ...'
+            if fn in cuts and not info['va']:
+                rct = em.cty(info['ret']); pl = ', '.join('%s p%d' % (em.cty(t), i) for i, (t, a_, n) in enumerate(info['params'])) or 'void'
+                body = '' if rct == 'void' else ('%s r_; memset(&r_, 0, sizeof r_); return r_;' % rct)
+                o.write('/* CUT (empty body): %s */\n%s F_%s(%s) { %s }\n' % (n2d.get(fn, fn)[:200], rct, cname(fn), pl, body))
+                print('CUT  ' + n2d.get(fn, fn)[:200], file=sys.stderr)
+                continue
             o.write('/* EXTERNAL%s: %s */\n%s F_%s(%s);\n' % (' (stubbed)' if fn in stubs else '', n2d.get(fn, fn)[:200], em.cty(info['ret']), cname(fn), ps))
         for fn, msg in fails.items():
             info = mod.funcs[fn].info
@@ -1049,7 +1060,7 @@ def main():
     for fn in done: print('FUNC ' + n2d.get(fn, fn)[:200], file=sys.stderr)
     for fn, msg in list(fails.items())[:20]: print('FAIL', n2d.get(fn, fn)[-80:], '::', msg[:500].replace('\n', ' '), file=sys.stderr)
     for fn in em.ext_funcs:
-        if fn not in done: print('EXT ', fn, '|', n2d.get(fn, fn)[:140], file=sys.stderr)
+        if fn not in done and fn not in cuts: print('EXT ', fn, '|', n2d.get(fn, fn)[:140], file=sys.stderr)
 
 if __name__ == '__main__':
     main()
